@@ -24,7 +24,7 @@
    overwriting), `expect` (Merkle: a slot determines the pages its verification accepts). *)
 From RV Require Import Base.Bytes Gen.Consts Storage.Backend Storage.BackendP Storage.Crash Storage.CrashP
   Storage.Header Storage.HeaderP Storage.Window Storage.WindowP Storage.IdealH Storage.IdealHP
-  Storage.C01Example.
+  Storage.C01Example Storage.Protocol Storage.ProtocolP.
 
 Definition tear_resistant (H : bytes -> bytes) : Prop :=
   forall a b m, cks_ok H a = true -> cks_ok H b = true -> mix2 a b m -> cks_ok H m = true ->
@@ -190,3 +190,117 @@ Proof.
       * left. split; auto.
   - split; [vm_compute; reflexivity|]. split; vm_compute; discriminate.
 Qed.
+
+(* ================================================================================================
+   The commit / close / open PROTOCOL (Storage/Protocol.v): for EVERY history of protocol steps --
+   buffered pages written early by eviction, file growth (set_len + sync before any header names the new
+   length), one-phase and two-phase (incl. quick-repair) durable commits with or without a shrinking
+   set_len after the final sync, non-durable commits in between, clean close (quick-repair commit, trim,
+   clean flag) and reopen -- every sync window the model emits is accepted by window_okb w.r.t. the summary
+   the model computes for the durable image at the window's start, the summaries are truthful (image_ok),
+   and therefore (instantiating crash_trace_safe) every crash image at every instant recovers to the last
+   durable commit or to the commit in flight.
+   Oracle inputs and their side conditions: step_okb (copy-on-write of the transaction's page writes w.r.t.
+   the durable commit = C06; lengths that map onto region layouts = C20/C14; increasing transaction ids) and
+   steps_sem (the new slot's checksum is valid and, once the first flush of a commit is on disk, the new
+   commit verifies within the stated ranges = C10 + the cache's flush contract).
+   That the REAL crate issues exactly the streams this model emits is validated per run (S2 iii).
+   ================================================================================================ *)
+
+Theorem protocol_windows_ok :
+  forall (st : pst) (ss : list pstep),
+    inv_b st = true -> steps_okb st ss = true ->
+    forallb wrec_okb (all_windows (run_steps st ss)) = true
+    /\ inv_b (a_st (run_steps st ss)) = true.
+Proof. exact ProtocolP.protocol_windows_ok_b. Qed.
+
+(* one step: the windows it completes are accepted and the invariant is kept *)
+Theorem protocol_step_ok :
+  forall (st : pst) (s : pstep),
+    Inv st -> step_okb st s = true ->
+    forallb wrec_okb (a_ws (run_step st s)) = true /\ Inv (a_st (run_step st s)).
+Proof. exact ProtocolP.step_ok. Qed.
+
+Theorem protocol_invariant_executable : forall st, inv_b st = true <-> Inv st.
+Proof. exact ProtocolP.inv_b_Inv. Qed.
+
+(* the summaries the protocol computes are truthful along every history *)
+Theorem protocol_images_ok :
+  forall (H : bytes -> bytes) (expect : bytes -> list (N * bytes)) (ps : N),
+    tear_resistant H -> pages_above_header expect ->
+    forall (st : pst) (ss : list pstep) (D : image),
+      Inv st -> Sem H expect ps st D -> steps_okb st ss = true -> steps_sem H expect st D ss ->
+      chain H expect ps D (all_windows (run_steps st ss)).
+Proof. exact ProtocolP.protocol_chain. Qed.
+
+Theorem protocol_crash_safe :
+  forall (H : bytes -> bytes) (expect : bytes -> list (N * bytes)) (ps : N),
+    tear_resistant H -> pages_above_header expect ->
+    forall (st : pst) (ss : list pstep) (D : image),
+      Inv st -> Sem H expect ps st D -> steps_okb st ss = true -> steps_sem H expect st D ss ->
+      forall pre w post k img,
+        all_windows (run_steps st ss) = pre ++ w :: post ->
+        CrashOf (image_after D pre) (firstn k (w_ops w)) img ->
+        crash_outcome H expect ps (w_sum w) (map abs (w_ops w)) img.
+Proof. exact ProtocolP.protocol_crash_safe. Qed.
+
+(* ---------------- non-vacuity ---------------- *)
+
+Example px_inv : inv_b px_st0 = true.
+Proof. vm_compute. reflexivity. Qed.
+Example px_steps_ok : steps_okb px_st0 px_steps = true.
+Proof. vm_compute. reflexivity. Qed.
+(* 14 windows, all accepted (computed, independently of the theorem), consecutive summaries consistent *)
+Example px_windows :
+  length (all_windows (run_steps px_st0 px_steps)) = 14%nat
+  /\ forallb wrec_okb (all_windows (run_steps px_st0 px_steps)) = true
+  /\ links_okb (all_windows (run_steps px_st0 px_steps)) = true
+  /\ inv_b (a_st (run_steps px_st0 px_steps)) = true.
+Proof. vm_compute. auto. Qed.
+Example px_windows_by_theorem : forallb wrec_okb (all_windows (run_steps px_st0 px_steps)) = true.
+Proof. exact (proj1 (protocol_windows_ok px_st0 px_steps px_inv px_steps_ok)). Qed.
+
+Example px_sem0 : Sem Hideal ex_expect ex_ps px_st0 ex_D.
+Proof. constructor; [exact ex_image_ok | intros E; discriminate]. Qed.
+Example px_steps2_ok : steps_okb px_st0 px_steps2 = true.
+Proof. vm_compute. reflexivity. Qed.
+Example px_steps2_sem : steps_sem Hideal ex_expect px_st0 ex_D px_steps2.
+Proof.
+  repeat split; try (vm_compute; reflexivity);
+    intros e He; vm_compute in He; destruct He as [<- | []]; vm_compute; reflexivity.
+Qed.
+(* a crash right after the first flush of the 2PC commit was issued but before it completed, with only the
+   header write of that flush on disk: an instance of protocol_crash_safe *)
+Example px_crash :
+  let ws := all_windows (run_steps px_st0 px_steps2) in
+  let D1 := image_after ex_D (firstn 1 ws) in
+  let w := nth 1 ws (open_window px_st0) in
+  forall img, CrashOf D1 (firstn 2 (w_ops w)) img ->
+  crash_outcome Hideal ex_expect ex_ps (w_sum w) (map abs (w_ops w)) img.
+Proof.
+  cbv zeta. intros img HC.
+  refine (protocol_crash_safe Hideal ex_expect ex_ps ideal_checksum_tear_resistant ex_pages_above
+            px_st0 px_steps2 ex_D (proj1 (protocol_invariant_executable _) px_inv) px_sem0 px_steps2_ok px_steps2_sem
+            (firstn 1 (all_windows (run_steps px_st0 px_steps2))) _ (skipn 2 (all_windows (run_steps px_st0 px_steps2))) 2 img _ HC).
+  vm_compute. reflexivity.
+Qed.
+
+(* ---------------- the check catches protocol reorderings ---------------- *)
+
+(* two-phase commit with the intermediate sync_data removed (the header writes coalesce): the single window
+   carries a 2PC-flagged god byte that names a slot whose pages are not durable yet -- rejected; the real
+   protocol from the same state with the same inputs is accepted *)
+Example nx_2pc_without_mid_sync_rejected :
+  forallb wrec_okb (a_ws (run_commit_no_mid_sync (a_start px_st0) (ex_slot 2 6) [(1536, 2)] [(1536, [2; 6])])) = false
+  /\ forallb wrec_okb (a_ws (run_step px_st0 (PCommit true (ex_slot 2 6) [(1536, 2)] [(1536, [2; 6])] None))) = true.
+Proof. vm_compute. auto. Qed.
+
+(* the shrinking set_len issued before the final sync_data: a crash can persist the truncation without the
+   header, cutting off pages of the commit that is still the durable one -- rejected; issued after the sync,
+   accepted *)
+Example nx_shrink_before_final_sync_rejected :
+  forallb wrec_okb (a_ws (run_commit_early_shrink (a_start px_stS) (ex_slot 0 6) [(512, 2)] [(512, [0; 6])] 1536 (px_lay 0 2))) = false
+  /\ inv_b px_stS = true
+  /\ step_okb px_stS (PCommit false (ex_slot 0 6) [(512, 2)] [(512, [0; 6])] (Some (1536, px_lay 0 2))) = true
+  /\ forallb wrec_okb (all_windows (run_step px_stS (PCommit false (ex_slot 0 6) [(512, 2)] [(512, [0; 6])] (Some (1536, px_lay 0 2))))) = true.
+Proof. vm_compute. auto. Qed.
